@@ -490,7 +490,10 @@ pub fn explore(setup: &Setup, bound: Option<u32>, cap: u64, each: &mut dyn FnMut
     let mut n = 0u64;
     let mut capped = false;
     while let Some(prefix) = stack.pop() {
-        if n >= cap || sched::abandon_count() >= 3 {
+        if n >= cap || sched::abandon_count() >= 3 || (n > 0 && crate::report::wall_cap_hit()) {
+            if crate::report::wall_cap_hit() {
+                crate::report::note_skipped(1);
+            }
             capped = true;
             break;
         }
@@ -713,7 +716,15 @@ pub fn run_family_list(run: &mut Run, fams: Vec<Family>) -> Stats {
     let mut total = Stats::new();
     let mut fam_json = Vec::new();
     let mut any_capped = false;
-    for fam in &fams {
+    // a family may use whatever the run's wall budget has left, except a reserve for the families
+    // still to come, so that a slow early family cannot starve the later ones
+    let total_left = crate::report::remaining_ms();
+    let t_start = std::time::Instant::now();
+    for (fi, fam) in fams.iter().enumerate() {
+        let left = total_left.saturating_sub(t_start.elapsed().as_millis() as u64);
+        // ... at least half an equal share is reserved for each family still to come
+        let reserve = (fams.len() - fi - 1) as u64 * (total_left / (2 * fams.len() as u64));
+        crate::report::set_deadline_in_ms(left.saturating_sub(reserve).max(left / (fams.len() - fi) as u64));
         let capped = std::sync::atomic::AtomicBool::new(false);
         let sched_count = std::sync::atomic::AtomicU64::new(0);
         let max_sched = std::sync::atomic::AtomicU64::new(0);
@@ -738,6 +749,7 @@ pub fn run_family_list(run: &mut Run, fams: Vec<Family>) -> Stats {
         fam_json.push(json!({"family": fam.name, "programs": fam.setups.len(), "preemption_bound": fam.bound, "schedules": sched_count.load(std::sync::atomic::Ordering::Relaxed), "max_schedules_per_program": max_sched.load(std::sync::atomic::Ordering::Relaxed), "cap_per_program": fam.cap, "cap_hit": c}));
         total.merge(st);
     }
+    crate::report::set_deadline_in_ms(total_left.saturating_sub(t_start.elapsed().as_millis() as u64));
     run.extra.insert("families".into(), json!(fam_json));
     if any_capped {
         run.exhaustive = false;
